@@ -17,7 +17,8 @@ def configs(tier):
     q = tier == "quick"
     c = []
     M = "cnt=0,prop=C02,probe=1"
-    for tp, dq, dt in (("btcp", 3, 5), ("btls", 2, 3)):
+    # (thorough = one deviation deeper than quick on every configuration; the TLS block first: a tier deadline cuts from the end)
+    for tp, dq, dt in ((("btcp", 3, 4), ("btls", 2, 3)) if q else (("btls", 2, 3), ("btcp", 3, 4))):
         for script, style in (("S1", "spec"), ("S1", "strict"), ("S2", "spec"), ("S3", "spec")):
             d = dq if q else dt
             if script == "S2":
@@ -43,4 +44,4 @@ def configs(tier):
 def run(chk, tier, jobs, deadline):
     chk.assumptions += ASSUME
     msgfamily.run_configs(chk, "h_msg", configs(tier), PREFIXES, jobs,
-                          deadline or (420 if tier == "quick" else 2700))
+                          deadline or (420 if tier == "quick" else 1500))
